@@ -295,7 +295,7 @@ func (j *judgeCtx) maybeAccepted(s *Sub) bool {
 // (acknowledging adapter with refused acks / crash).
 func (j *judgeCtx) reexecAllowed(s *Sub) bool {
 	q := j.qOf(s)
-	return q.ad != nil && (q.cfg.FAck > 0 || j.wd.crashes > 0)
+	return q.ad != nil && (q.cfg.FAck > 0 || q.cfg.FAckLost > 0 || j.wd.crashes > 0)
 }
 
 func (j *judgeCtx) inflightAt(seq uint64) int {
@@ -358,6 +358,9 @@ func (j *judgeCtx) checkExecution() {
 			j.add("C10.e", j.final, "%s", msg)
 			j.add("C14.d", j.final, "%s", msg)
 			j.add("C18.d", j.final, "%s", msg)
+			if s.h != nil {
+				j.add("C16.e", j.final, "submission %d was accepted at %d and never cancelled or purged; the worker is Running and at rest, yet its handle will never read Closed: the job never ran (entries %v)", s.N, s.AddRet, s.Entries)
+			}
 		}
 	}
 	// C10.e second half: removed by a purge but never cancelled (handle never released)
@@ -1454,7 +1457,9 @@ func (j *judgeCtx) checkOutcomes() {
 		for _, c := range j.r.calls {
 			switch c.K {
 			case opCloseJob, opPurge, opCloseQueue, opStop, opWaitAndStop, opRestart, opCancelCtx, opBind:
-				if c.Phase == 0 {
+				// (by any client task: a client still blocked in a call when the root task
+				// starts the epilogue carries on with Phase 1 set)
+				if c.Phase == 0 || c.Task != wd.rootTaskID {
 					quiet = false
 				}
 			}
